@@ -265,7 +265,13 @@ pub fn run(ctx: &mut Ctx) {
             terms.push(LexTerm::new_statement(c.clone(), LexTerm::new_atom(f.e().atom.prefix_placeholder, ""), b.clone()));
             terms.push(LexTerm::new_statement(c.clone(), a.clone(), LexTerm::new_atom(f.e().atom.prefix_placeholder, "")));
         }
-        let nested: Vec<LexTerm> = terms.iter().map(|t| LexTerm::new_statement(v.copulas[0].clone(), t.clone(), LexTerm::new_set(v.set_brackets[0].0.clone(), vec![t.clone()], v.set_brackets[0].1.clone()))).collect();
+        // near-keyword names as whole terms (the name ends / begins with a proper part of a keyword)
+        for n in near_keyword_names_all(f) {
+            terms.push(LexTerm::new_atom("", n.clone()));
+            terms.push(LexTerm::new_atom(v.prefixes.iter().find(|p| !p.is_empty() && p.as_str() != f.e().atom.prefix_placeholder).cloned().unwrap_or_default(), n.clone()));
+        }
+        let n_plain = terms.len();
+        let nested: Vec<LexTerm> = terms.iter().take(n_plain - 2 * near_keyword_names_all(f).len()).map(|t| LexTerm::new_statement(v.copulas[0].clone(), t.clone(), LexTerm::new_set(v.set_brackets[0].0.clone(), vec![t.clone()], v.set_brackets[0].1.clone()))).collect();
         terms.extend(nested);
         for (ti, t) in terms.iter().enumerate() {
             idx += 1;
